@@ -313,6 +313,24 @@ example : ∃ b bs, parseConfig [] [] (fun _ => true)
       = .ok (b :: bs) :=
   Proofs.Conf.ok_of_isOkNonempty (by decide +kernel)
 
+/-- The shape of the grammar the parser model was written for, against what parse.y declares now:
+* the precedence declarations are `%left AND OR`, `%left NEG`, `%left ATTACHMENT` in this order (lowest
+  first) and no rule has a `%prec` - what `parseBinTail` (one left-associative level for `and` / `or`) and
+  `parseUnary` (`!` and `attachment` bind tighter than both) implement;
+* the table consists of the productions the two theorems above use (`Proofs.Cfg.usedProductions`: what the
+  printer writes and the parser model implements) and of exactly two `error` productions, `grammar: error`
+  and `exprs: error` - the error recovery that is not modelled; a production added to parse.y is therefore
+  reported here before any generator knows the new syntax;
+* `SYNC` is the only declared token no rule mentions. -/
+theorem C14_grammar_shape :
+    Gen.grammarPrecedence = [("left", ["AND", "OR"]), ("left", ["NEG"]), ("left", ["ATTACHMENT"])] ∧
+    Gen.grammarRulePrec = [] ∧
+    Gen.productions.all (fun p => Proofs.Cfg.usedProductions.contains p || Gen.errorProductions.contains p) = true ∧
+    Proofs.Cfg.usedProductions.all (fun p => Gen.productions.contains p) = true ∧
+    Gen.errorProductions = [("grammar", ["error"]), ("exprs", ["error"])] ∧
+    Gen.grammarUnusedTokens = ["SYNC"] :=
+  ⟨by decide, by decide, Proofs.Cfg.table_is_covered.1, Proofs.Cfg.table_is_covered.2.1, by decide, by decide⟩
+
 /-! ## The whole program from the configuration TEXT (`Model.mainText`, Model/MainText.lean)
 
 `mainText env orc rxOk defs confText files input` is `main` of mdsort.c after `getopt`: the `-D` options
